@@ -552,6 +552,20 @@ def idem_causes(src, cfg, out=''):
     return causes
 
 
+def indent_only_key(src, out, out2):
+    """(key, what) if the second run only re-indents lines and the input holds one of the shapes known for that."""
+    if not indent_only(out, out2):
+        return None
+    if call_in_parens(src):
+        return ('C16:idem:indent-only:call-in-multiline-parens',
+                'a call with split arguments inside a multi-line parenthesised expression is re-indented by every further run')
+    if paren_in_parens(src):
+        return ('C16:idem:indent-only:parens-in-multiline-parens',
+                'parentheses inside a parenthesised expression that the line-length pass splits: the inner closing parenthesis is '
+                'not indented by the first run, the next run indents it')
+    return None
+
+
 def indent_only(a, b):
     return a != b and [l.lstrip(' \t') for l in a.split('\n')] == [l.lstrip(' \t') for l in b.split('\n')]
 
@@ -601,13 +615,21 @@ def classify(kind, detail, src, cfg, out, ref=True):
                     s2, c2 = fn(s2, c2)
             if not still('idem', s2, c2, ref):
                 return 'C16:idem:' + causes[0][0], causes[0][1] + ' (together with: %s)' % ', '.join(c[0] for c in causes[1:])
-        if indent_only(out, detail) and call_in_parens(src):
-            return ('C16:idem:indent-only:call-in-multiline-parens',
-                    'a call with split arguments inside a multi-line parenthesised expression is re-indented by every further run')
-        if indent_only(out, detail) and paren_in_parens(src):
-            return ('C16:idem:indent-only:parens-in-multiline-parens',
-                    'parentheses inside a parenthesised expression that the line-length pass splits: the inner closing parenthesis is '
-                    'not indented by the first run, the next run indents it')
+        k = indent_only_key(src, out, detail)
+        if k:
+            return k
+        if causes:
+            # a known mechanism together with a re-indentation: neutralise the former, look at what is left
+            s2, c2 = src, cfg
+            for name, what, fn in causes:
+                if s2 is not None:
+                    s2, c2 = fn(s2, c2)
+            if s2 is not None:
+                st2, v2, out2, _ = raw_violations(s2, c2, ref)
+                d2 = next((d for kd, d in v2 if kd == 'idem'), None) if st2 == 'viol' else None
+                k = indent_only_key(s2, out2, d2) if d2 is not None else None
+                if k:
+                    return k[0], k[1] + ' (together with: %s)' % ', '.join(c[0] for c in causes)
     # not explained by a known mechanism
     mo = missing_operand(src) if not ref else None
     if mo == 'missing-operand':
